@@ -707,3 +707,17 @@ func verifLemmaMergeOfEmptyLogChangesNothing(a, b *IPFSLog, k string) (bool, boo
 
 	return in1, in2, head1, head2, e1
 }
+
+// Two duplicate-free sequences over the same set of hashes, both ascending for an ordering that is strict on distinct
+// hashes, are the same sequence (position by position, by induction on the position). With C03 (Values() is such a
+// sequence over the entry set) this is the last clause of C01: replicas holding the same entries expose the same values.
+//@ define ascendingKeys(fn fn, r iface.IPFSLogOrderedEntries) = forall i int, j int :: 0 <= i && i < j && j < len(om(r).keys) ==> ordH(fn, om(r).keys[i], om(r).keys[j]) <= 0
+//@ func verifLemmaSortedSequencesAgree
+//@   lemma
+//@   induction i by i
+//@   requires isOM(r1) && isOM(r2) && preorder(fn) && (forall a string, b string :: ordH(fn, a, b) == 0 ==> a == b)
+//@   requires (forall k string :: has(omv(r1), k) == has(omv(r2), k)) && ascendingKeys(fn, r1) && ascendingKeys(fn, r2)
+//@   requires 0 <= i && i < len(om(r1).keys) && i < len(om(r2).keys)
+//@   ensures [same-set-same-strict-order-same-sequence] om(r1).keys[i] == om(r2).keys[i]
+func verifLemmaSortedSequencesAgree(fn func(a, b iface.IPFSLogEntry) (int, error), r1, r2 iface.IPFSLogOrderedEntries, i int) {
+}
